@@ -446,6 +446,7 @@ impl Vm {
     //@  ensures !old(self).handling_exception && old(self).fib.return_ip is None ==> r is Ok && final(self).fib.stack == old(self).fib.stack && final(self).ip == old(self).ip && final(self).fib.exc_handlers == old(self).fib.exc_handlers
     //@  ensures (!old(self).handling_exception && old(self).fib.return_ip is Some) ==> r is Ok && final(self).ip == old(self).fib.return_ip->0 && final(self).fib.stack.view == old(self).fib.stack.view.push(old(self).fib.return_value) && final(self).fib.return_ip is None && final(self).fib.exc_handlers == old(self).fib.exc_handlers
     //@  ensures old(self).handling_exception && old(self).fib.exc_handlers@.len() == 0 ==> r is Err
+    //@  ensures @a_re_raised_exception_that_finds_a_handler_continues_there_whatever_return_is_parked (old(self).handling_exception && old(self).fib.exc_handlers@.len() > 0) ==> r is Ok && final(self).ip == old(self).fib.exc_handlers@.last().catch_ip && final(self).fib.exc_handlers@ == old(self).fib.exc_handlers@.drop_last()
     //@  ensures @pending_exception_is_re_raised_to_the_next_handler (old(self).handling_exception && old(self).fib.exc_handlers@.len() > 0 && old(self).fib.return_ip is None) ==> r is Ok && final(self).fib.exc_handlers@ == old(self).fib.exc_handlers@.drop_last()
     //@  ensures (old(self).handling_exception && old(self).fib.exc_handlers@.len() > 0 && old(self).fib.return_ip is None) ==> final(self).ip == old(self).fib.exc_handlers@.last().catch_ip
     //@  ensures ((old(self).handling_exception && old(self).fib.exc_handlers@.len() > 0 && old(self).fib.return_ip is None) && old(self).fib.exc_handlers@.last().finally_ip != old(self).fib.exc_handlers@.last().catch_ip) ==> final(self).fib.stack.view =~= old(self).fib.stack.view.take(old(self).fib.exc_handlers@.last().init_stack_size as int).push(old(self).fib.pending_exception)
